@@ -1251,3 +1251,157 @@ SHIMS["__shim::fold"] = _mk_fold_shim()
 for _n in ("<std::iter::Enumerate<I> as std::iter::Iterator>::fold", "std::iter::Iterator::fold", "<std::iter::Rev<I> as std::iter::Iterator>::fold",
            "<std::slice::Iter<'a, T> as std::iter::Iterator>::fold"):
     SHIMS[_n] = SHIMS["__shim::fold"]
+
+
+# ------------------------------------------------------------------------------------------------ lazy iterator adapters (map / flat_map / collect)
+# Adapters are plain Adt values (so that synthetic MIR can project their fields); `next` on them enters a shim that calls the
+# closure through FnMut::call_mut like the real adapter does.
+
+def _adapter(kind, fields, names):
+    return Adt("__iter::" + kind, 0, kind, fields, names)
+
+
+@model("std::iter::Iterator::map")
+def m_iter_map(m, st, ctx, args, span):
+    return _adapter("Map", [args[0], args[1]], ["iter", "f"])
+
+
+@model("std::iter::Iterator::flat_map")
+def m_iter_flat_map(m, st, ctx, args, span):
+    return _adapter("FlatMap", [args[0], args[1], none()], ["iter", "f", "cur"])
+
+
+def _next_dispatch(m, st, ctx, args, span):
+    it = deref(args[0])
+    if isinstance(it, Adt) and it.path == "__iter::Map":
+        return Enter("__shim::map_next", [args[0]])
+    if isinstance(it, Adt) and it.path == "__iter::FlatMap":
+        return Enter("__shim::flatmap_next", [args[0]])
+    return iter_next(m, args[0])
+
+
+for _n in ("__shim::next", "<std::iter::Map<I, F> as std::iter::Iterator>::next", "<std::iter::FlatMap<I, U, F> as std::iter::Iterator>::next"):
+    MODELS[_n] = _next_dispatch
+
+
+@model("__shim::into_iter")
+def m_shim_into_iter(m, st, ctx, args, span):
+    return m_into_iter(m, st, ctx, args, span)
+
+
+@model("__shim::vec_new")
+def m_shim_vec_new(m, st, ctx, args, span):
+    return VecV(elems=[])
+
+
+@model("std::iter::Iterator::collect")
+def m_collect(m, st, ctx, args, span):
+    it = args[0]
+    ty = ctx.dest_ty or {}
+    if ty.get("k") != "adt" or ty.get("path") != "std::vec::Vec":
+        raise Unsupported("collect into %s" % ty.get("s"))
+    if isinstance(it, (IterV,)) or (isinstance(it, Adt) and it.path in ("__iter::Map", "__iter::FlatMap", "std::ops::Range")):
+        return Enter("__shim::collect_vec", [it])
+    raise Unsupported("collect of %r" % (it,))
+
+
+def _some_field(l):
+    return _move(l, {"k": "downcast", "variant": 1, "name": "Some"}, {"k": "field", "i": 0, "name": "0", "ty": _ANY})
+
+
+def _opt(variant, ops):
+    return {"k": "aggregate", "kind": {"k": "adt", "path": "std::option::Option", "variant": variant, "variant_name": "Some" if variant else "None",
+                                       "fields": ["0"] if ops else [], "args": []}, "ops": ops}
+
+
+def _fld(i, name):
+    return {"k": "field", "i": i, "name": name, "ty": _ANY}
+
+
+_DEREF = {"k": "deref"}
+
+
+def _call(path, args, dest, target):
+    return {"k": "call", "callee": _callee(path), "args": args, "dest": _pl(dest), "target": target, "unwind": "continue", "span": None}
+
+
+def _asg(place, rv):
+    return {"k": "assign", "place": place, "rv": rv, "span": None}
+
+
+def _blk(stmts, term):
+    return {"cleanup": False, "stmts": stmts, "term": term}
+
+
+def _body(path, nargs, nlocals, blocks):
+    return {"path": path, "promoted": None, "def_kind": "Fn", "span": {"file": "<shim>", "line": 0}, "arg_count": nargs,
+            "locals": [{"ty": _ANY} for _ in range(nlocals)], "debug": [], "blocks": blocks}
+
+
+def _mk_map_next_shim():
+    # fn next(self: &mut Map) -> Option<B> { match next(&mut self.iter) { None => None, Some(x) => Some((self.f)(x)) } }
+    # locals: 0 ret, 1 self, 2 &mut iter, 3 nxt, 4 discr, 5 x, 6 args, 7 &mut f, 8 y
+    blocks = [
+        _blk([_asg(_pl(2), {"k": "ref", "mut": True, "place": _pl(1, _DEREF, _fld(0, "iter"))})], _call("__shim::next", [_move(2)], 3, 1)),
+        _blk([_asg(_pl(4), {"k": "discr", "place": _pl(3)})], {"k": "switch", "discr": _move(4), "discr_ty": _ANY, "arms": [["0", 4]], "otherwise": 2}),
+        _blk([_asg(_pl(5), {"k": "use", "op": _some_field(3)}),
+              _asg(_pl(6), {"k": "aggregate", "kind": {"k": "tuple"}, "ops": [_move(5)]}),
+              _asg(_pl(7), {"k": "ref", "mut": True, "place": _pl(1, _DEREF, _fld(1, "f"))})],
+             _call("std::ops::FnMut::call_mut", [_move(7), _move(6)], 8, 3)),
+        _blk([_asg(_pl(0), _opt(1, [_move(8)]))], {"k": "return"}),
+        _blk([_asg(_pl(0), _opt(0, []))], {"k": "return"}),
+    ]
+    return _body("__shim::map_next", 1, 9, blocks)
+
+
+def _mk_flatmap_next_shim():
+    # locals: 0 ret, 1 self, 2 discr cur, 3 &mut cur iter, 4 n, 5 discr n, 6 &mut iter, 7 e, 8 discr e, 9 x, 10 args, 11 &mut f, 12 y, 13 it
+    cur = lambda *more: _pl(1, _DEREF, _fld(2, "cur"), *more)
+    blocks = [
+        # bb0
+        _blk([_asg(_pl(2), {"k": "discr", "place": cur()})], {"k": "switch", "discr": _move(2), "discr_ty": _ANY, "arms": [["0", 4]], "otherwise": 1}),
+        # bb1: current sub-iterator
+        _blk([_asg(_pl(3), {"k": "ref", "mut": True, "place": cur({"k": "downcast", "variant": 1, "name": "Some"}, _fld(0, "0"))})],
+             _call("__shim::next", [_move(3)], 4, 2)),
+        # bb2
+        _blk([_asg(_pl(5), {"k": "discr", "place": _pl(4)})], {"k": "switch", "discr": _move(5), "discr_ty": _ANY, "arms": [["0", 3]], "otherwise": 8}),
+        # bb3: exhausted -> clear and fetch
+        _blk([_asg(cur(), _opt(0, []))], {"k": "goto", "target": 4}),
+        # bb4: fetch next outer element
+        _blk([_asg(_pl(6), {"k": "ref", "mut": True, "place": _pl(1, _DEREF, _fld(0, "iter"))})], _call("__shim::next", [_move(6)], 7, 5)),
+        # bb5
+        _blk([_asg(_pl(8), {"k": "discr", "place": _pl(7)})], {"k": "switch", "discr": _move(8), "discr_ty": _ANY, "arms": [["0", 9]], "otherwise": 6}),
+        # bb6: call the closure
+        _blk([_asg(_pl(9), {"k": "use", "op": _some_field(7)}),
+              _asg(_pl(10), {"k": "aggregate", "kind": {"k": "tuple"}, "ops": [_move(9)]}),
+              _asg(_pl(11), {"k": "ref", "mut": True, "place": _pl(1, _DEREF, _fld(1, "f"))})],
+             _call("std::ops::FnMut::call_mut", [_move(11), _move(10)], 12, 7)),
+        # bb7: into_iter and store
+        _blk([], _call("__shim::into_iter", [_move(12)], 13, 10)),
+        # bb8: yield
+        _blk([_asg(_pl(0), {"k": "use", "op": _move(4)})], {"k": "return"}),
+        # bb9: outer exhausted
+        _blk([_asg(_pl(0), _opt(0, []))], {"k": "return"}),
+        # bb10
+        _blk([_asg(cur(), _opt(1, [_move(13)]))], {"k": "goto", "target": 0}),
+    ]
+    return _body("__shim::flatmap_next", 1, 14, blocks)
+
+
+def _mk_collect_vec_shim():
+    # fn collect(it) -> Vec<T> { let mut v = vec_new(); loop { match next(&mut it) { None => return v, Some(x) => v.push(x) } } }
+    # locals: 0 ret(v), 1 it, 2 &mut it, 3 n, 4 discr, 5 x, 6 &mut v, 7 unit
+    blocks = [
+        _blk([], _call("__shim::vec_new", [], 0, 1)),
+        _blk([_asg(_pl(2), {"k": "ref", "mut": True, "place": _pl(1)})], _call("__shim::next", [_move(2)], 3, 2)),
+        _blk([_asg(_pl(4), {"k": "discr", "place": _pl(3)})], {"k": "switch", "discr": _move(4), "discr_ty": _ANY, "arms": [["0", 4]], "otherwise": 3}),
+        _blk([_asg(_pl(5), {"k": "use", "op": _some_field(3)}), _asg(_pl(6), {"k": "ref", "mut": True, "place": _pl(0)})],
+             _call("std::vec::Vec::<T, A>::push", [_move(6), _move(5)], 7, 1)),
+        _blk([], {"k": "return"}),
+    ]
+    return _body("__shim::collect_vec", 1, 8, blocks)
+
+
+SHIMS["__shim::map_next"] = _mk_map_next_shim()
+SHIMS["__shim::flatmap_next"] = _mk_flatmap_next_shim()
+SHIMS["__shim::collect_vec"] = _mk_collect_vec_shim()
